@@ -733,6 +733,32 @@ func lenAddsM(fd *ast.FuncDecl, meths map[string]*ast.FuncDecl, depth int) int {
 	return n
 }
 
+// registryMuPrivate: no file of package actor other than registry.go touches the registry's mutex (…Registry.mu…): the
+// critical sections of the registry are exactly the methods analysed above, and nobody can hold the lock across other calls.
+func registryMuPrivate(dir string) bool {
+	entries, err := os.ReadDir(dir)
+	if err != nil {
+		return false
+	}
+	ok := true
+	for _, e := range entries {
+		n := e.Name()
+		if e.IsDir() || !strings.HasSuffix(n, ".go") || strings.HasSuffix(n, "_test.go") || n == "registry.go" {
+			continue
+		}
+		f := parse(filepath.Join(dir, n))
+		ast.Inspect(f, func(x ast.Node) bool {
+			if se, isS := x.(*ast.SelectorExpr); isS && se.Sel.Name == "mu" {
+				if strings.HasSuffix(exprString(se.X), "Registry") {
+					ok = false
+				}
+			}
+			return true
+		})
+	}
+	return ok
+}
+
 func leanStr(s string) string { return strconv.Quote(s) }
 
 func leanBool(b bool) string {
@@ -805,6 +831,8 @@ func main() {
 	fmt.Fprintf(&b, "def registryLockShape : List (String × Bool) := %s\n", shapeList(gm, []string{"Remove", "get", "getByID"}))
 	fmt.Fprintf(&b, "/-- Registry.add tests and inserts under one critical section and starts the process after it -/\n")
 	fmt.Fprintf(&b, "def registryAddAtomic : Bool := %s\n", leanBool(registryAddAtomic(gm["add"], gm)))
+	fmt.Fprintf(&b, "/-- no file of package actor other than registry.go touches Registry.mu -/\n")
+	fmt.Fprintf(&b, "def registryMuPrivate : Bool := %s\n", leanBool(registryMuPrivate(filepath.Join(*repo, "actor"))))
 	fmt.Fprintf(&b, "def safemapLockShape : List (String × Bool) := %s\n", shapeList(mm, smNames))
 	b.WriteString("\nend HW.Generated\n")
 	if err := os.WriteFile(*out, []byte(b.String()), 0o644); err != nil {
